@@ -9,6 +9,22 @@ Theorems of record about `Model.Xfr` (the model of `dns/xfr.py` `Inbound` driven
 decision point of DESIGN §6 D11 (surplus after the final SOA is refused *before* committing); the
 check learns at run time which of the two the working tree implements and demands correspondence with it.
 Zones are compared as sets of records (`≃z`).
+
+* convergence: `axfr_converges`, `ixfr_converges` (any chain length, any chunking), `axfr_style_ixfr`,
+  `up_to_date_noop`, `udp_ixfr`;
+* `fault_unchanged`, as a family — each fault class an explicit transformer on accepted (in particular:
+  all valid) streams, result = an error **and** the zone before: `fault_truncate` (ends early, final SOA
+  dropped), `fault_header` (+ `fault_header_rcode`, `fault_header_question`), `fault_wrong_base_serial`,
+  `fault_backwards_serial`, `fault_use_tcp`, `fault_surplus_after_final_soa`, `fault_axfr_first_not_soa`
+  (first SOA dropped or swapped), `fault_duplicate_deletion`;
+* atomicity: `error_implies_unapplied` (all message sequences; repaired variant),
+  `error_implies_unapplied_partial` + `as_shipped_differs_only_by_commit` +
+  `surplus_after_final_soa_as_shipped` (shipped variant: the defect D11, proved in general and at a witness);
+* `serialLt_asymm`, `serialLt_ahead` (RFC 1982), `extract_of_make`.
+
+Faults that the protocol cannot detect (a dropped non-SOA record of an AXFR, a duplicated first SOA of an
+AXFR in its own message, …) complete without error in the code and in the model alike; for them only
+atomicity and the correspondence are claimed.
 -/
 namespace C13
 open Model.Xfr
